@@ -82,8 +82,12 @@ func verifCase(name string) int {
 	}
 	return int(verifModel[name])
 }
+
+var verifObsCnt = map[string]int{}
+
 func verifObserve(name string, v uint64) {
-	verifObserved = append(verifObserved, fmt.Sprintf("%s#%d=%d", name, len(verifObserved), v))
+	verifObserved = append(verifObserved, fmt.Sprintf("%s#%d=%d", name, verifObsCnt[name], v))
+	verifObsCnt[name]++
 }
 func verifChoose[T any](name string, xs ...T) T { return xs[verifModel[verifKey(name)]] }
 func verifMapPut[K comparable, V any](m map[K]V, k K, v V, present bool) {
@@ -182,3 +186,5 @@ func verifBatch(on bool) {}
 func verifNarrow[T any](v T) T { return v }
 
 func verifFairSelect(on bool) {}
+
+func verifGuardedBy(cell, mu interface{}, name string) {}
